@@ -394,9 +394,58 @@ func GlobalMap(g *ssa.Global) (map[string]Val, bool) {
 		}
 	}
 	if mk == nil {
+		// var inv = invert(fwd): a one-to-one literal table turned around at init time by
+		// a helper whose body is `for k, v := range m { out[v] = k }`
+		for _, b := range init.Blocks {
+			for _, ins := range b.Instrs {
+				st, ok := ins.(*ssa.Store)
+				if !ok || st.Addr != ssa.Value(g) {
+					continue
+				}
+				call, isCall := st.Val.(*ssa.Call)
+				if !isCall || len(call.Call.Args) != 1 || !isInvertHelper(call.Call.StaticCallee()) {
+					continue
+				}
+				ld, isLd := call.Call.Args[0].(*ssa.UnOp)
+				if !isLd {
+					continue
+				}
+				src, isG := ld.X.(*ssa.Global)
+				if !isG {
+					continue
+				}
+				fwd, okF := GlobalMap(src)
+				if !okF {
+					continue
+				}
+				inv := map[string]Val{}
+				keys := map[string]constant.Value{}
+				oneToOne := true
+				for ks, v := range fwd {
+					if v.K != Const {
+						oneToOne = false
+						continue
+					}
+					vs := v.C.ExactString()
+					if _, dup := inv[vs]; dup {
+						oneToOne = false
+					}
+					inv[vs] = Val{K: Const, C: globalMapKeys[src][ks]}
+					keys[vs] = v.C
+				}
+				if oneToOne {
+					globalMaps[g] = inv
+					globalMapKeys[g] = keys
+					globalMapsComplete[g] = true
+					return inv, true
+				}
+			}
+		}
 		return nil, false
 	}
 	tbl := map[string]Val{}
+	keyConsts := map[string]constant.Value{}
+	globalMapKeys[g] = keyConsts
 	complete := true
 	for _, ref := range *mk.Referrers() {
 		switch x := ref.(type) {
@@ -412,6 +461,7 @@ func GlobalMap(g *ssa.Global) (map[string]Val, bool) {
 				complete = false
 				continue
 			}
+			keyConsts[kv.ExactString()] = kv
 			if v.Value == nil {
 				tbl[kv.ExactString()] = Val{K: Nil}
 			} else {
@@ -444,6 +494,58 @@ func GlobalMap(g *ssa.Global) (map[string]Val, bool) {
 	globalMaps[g] = tbl
 	globalMapsComplete[g] = complete
 	return tbl, complete
+}
+
+var globalMapKeys = map[*ssa.Global]map[string]constant.Value{}
+
+// isInvertHelper: fn(m map[K]V) map[V]K whose body makes a map and, ranging
+// over m, stores out[v] = k (nothing else is stored into the result).
+func isInvertHelper(fn *ssa.Function) bool {
+	if fn == nil || fn.Blocks == nil || len(fn.Params) != 1 {
+		return false
+	}
+	var mk *ssa.MakeMap
+	var rng *ssa.Range
+	for _, b := range fn.Blocks {
+		for _, ins := range b.Instrs {
+			switch x := ins.(type) {
+			case *ssa.MakeMap:
+				if mk != nil {
+					return false
+				}
+				mk = x
+			case *ssa.Range:
+				if rng != nil || x.X != ssa.Value(fn.Params[0]) {
+					return false
+				}
+				rng = x
+			}
+		}
+	}
+	if mk == nil || rng == nil {
+		return false
+	}
+	updates := 0
+	for _, ref := range *mk.Referrers() {
+		switch x := ref.(type) {
+		case *ssa.MapUpdate:
+			k, ok1 := x.Key.(*ssa.Extract)
+			v, ok2 := x.Value.(*ssa.Extract)
+			if !ok1 || !ok2 || k.Index != 2 || v.Index != 1 {
+				return false
+			}
+			nk, okk := k.Tuple.(*ssa.Next)
+			nv, okv := v.Tuple.(*ssa.Next)
+			if !okk || !okv || nk != nv || nk.Iter != ssa.Value(rng) {
+				return false
+			}
+			updates++
+		case *ssa.Return:
+		default:
+			return false
+		}
+	}
+	return updates == 1
 }
 
 // StdlibConst recognises values that are constants by a standard-library
